@@ -2,7 +2,7 @@
    theorem, order independence, the frame theorem. *)
 From Coq Require Import String Ascii List Bool ZArith Arith Lia Permutation Sorted.
 From NRI Require Import Base.Lists Base.Strs Base.Assoc Base.StrOrder Model.Types Model.Result Model.Generate
-  Spec.Apply Spec.GenSpec Proofs.KeyedProofs Proofs.GenerateProofs Proofs.GenRefine.
+  Spec.Apply Spec.GenSpec Proofs.KeyedProofs Proofs.GenerateProofs Proofs.GenRefine Run.RunAdapt.
 Import ListNotations.
 Open Scope string_scope.
 Open Scope list_scope.
@@ -354,6 +354,37 @@ Proof.
   destruct (String.eqb a0 ""); reflexivity.
 Qed.
 
+(* the mounts of the result are existing mounts or mounts that were set *)
+Lemma del_phase_In {E} (key : E -> string) x es : forall cur, In x (del_phase key es cur) -> In x cur.
+Proof.
+  unfold del_phase. induction es as [|e r IH]; intros cur H; cbn [fold_left] in H; [exact H|].
+  apply IH in H. destruct (marked (key e)); [apply (remove_first_In key x _ _ H)|exact H].
+Qed.
+
+Lemma mounts_set_phase_In x es : forall c1,
+  In x (set_phase m_dest mount_step es c1) -> In x c1 \/ In x (r_adds m_dest es).
+Proof.
+  unfold set_phase, r_adds. induction es as [|e r IH]; intros c1 H; cbn [fold_left filter] in *; [left; exact H|].
+  apply IH in H. destruct (marked (m_dest e)); cbn [negb]; [exact H|].
+  destruct H as [H|H]; [|right; right; exact H].
+  unfold mount_step in H. apply in_app_or in H. destruct H as [H|[<-|[]]].
+  - left. apply (remove_first_In m_dest x _ _ H).
+  - right. left. reflexivity.
+Qed.
+
+Lemma gen_mounts_In x ms cur : In x (gen_mounts ms cur) -> In x cur \/ In x (r_adds m_dest ms).
+Proof.
+  rewrite gen_mounts_unfold. destruct ms as [|m0 r]; [intros H; left; exact H|]. intros H.
+  apply (Permutation_in x (sort_mounts_perm _)) in H. unfold mounts_unsorted in H.
+  apply mounts_set_phase_In in H. destruct H as [H|H]; [left; apply (del_phase_In m_dest x _ _ H)|right; exact H].
+Qed.
+
+Lemma gen_mounts_dest_ok ms cur :
+  Forall dest_ok cur -> Forall dest_ok (r_adds m_dest ms) -> Forall dest_ok (gen_mounts ms cur).
+Proof.
+  rewrite !Forall_forall. intros Hc Ha x Hx. destruct (gen_mounts_In x ms cur Hx) as [H|H]; [apply Hc|apply Ha]; exact H.
+Qed.
+
 (* the model refines the reference semantics on the observable projection *)
 Theorem gen_refines_equiv s a :
   wf_gen_P s a -> obs_equiv (sp_c (gen_adjust a s)) (apply_adj (cleared_classes a (sp_c s)) (gen_view a)).
@@ -373,14 +404,15 @@ Theorem gen_refines s a :
   obs_eqb (sp_c (gen_adjust a s)) (apply_adj (cleared_classes a (sp_c s)) (gen_view a)) = true /\
   sp_cdi (gen_adjust a s) = sp_cdi s ++ a_cdi a /\
   dev_rules_ok (a_devices a) (sp_rules (gen_adjust a s)) = true /\
-  (a_mounts a <> [] -> Forall dest_ok (c_mounts (sp_c (gen_adjust a s))) ->
+  (a_mounts a <> [] -> Forall dest_ok (c_mounts (sp_c s)) -> Forall dest_ok (r_adds m_dest (a_mounts a)) ->
    parents_first (c_mounts (sp_c (gen_adjust a s))) = true).
 Proof.
   intros Hwf. split; [|split; [|split]].
   - apply obs_equiv_eqb, gen_refines_equiv, wf_gen_props, Hwf.
   - apply gen_adjust_cdi.
   - rewrite gen_adjust_rules. apply gen_devices_rules.
-  - rewrite gen_adjust_c. cbv zeta. cbn [c_mounts]. apply gen_mounts_parents_first.
+  - rewrite gen_adjust_c. cbv zeta. cbn [c_mounts]. intros Hne Hc Ha.
+    apply gen_mounts_parents_first; [exact Hne|apply gen_mounts_dest_ok; assumption].
 Qed.
 
 (* ---------- order independence ---------- *)
@@ -517,3 +549,185 @@ Proof.
     apply gen_mounts_perm_eq; [exact (ap_mounts _ _ HP)|exact (wfp_cmounts _ _ Hwf)|exact (wfp_mounts _ _ Hwf)].
   - rewrite !gen_adjust_cdi, (ap_cdi _ _ HP). reflexivity.
 Qed.
+
+(* ---------- frame: what no entry of the adjustment names keeps its value ---------- *)
+Lemma named_mods {E} (key : E -> string) es k : In k (r_mods key es) -> In k (named key es).
+Proof.
+  unfold r_mods, r_adds, named. rewrite !in_map_iff. intros [e [Hk Hin]]. apply filter_In in Hin.
+  destruct Hin as [Hin Hm]. apply negb_true_iff in Hm. exists e. split; [|exact Hin].
+  rewrite (rawkey_unmarked _ Hm). exact Hk.
+Qed.
+Lemma named_dels {E} (key : E -> string) es k : In k (r_dels key es) -> In k (named key es).
+Proof.
+  unfold r_dels, named. rewrite !in_map_iff. intros [e [Hk Hin]]. apply filter_In in Hin. exists e. tauto.
+Qed.
+
+Lemma ref_keyed_frame {E} (key : E -> string) cur es k :
+  ~ In k (named key es) -> kfind key k (apply_keyed key key (fun e => e) cur es) = kfind key k cur.
+Proof.
+  intros Hn. rewrite ref_keyed_kfind.
+  assert (Ha : kfind key k (r_adds key es) = None).
+  { apply kfind_None_notin. intros H. apply Hn, named_mods. exact H. }
+  assert (Hd : smem k (r_dels key es) = false).
+  { apply smem_false_notin. intros H. apply Hn, named_dels. exact H. }
+  rewrite Ha, Hd. reflexivity.
+Qed.
+
+Lemma gen_scal_frame sc c0 f :
+  ~ In f (map fst sc) -> (f = MemSwap -> ~ In MemLimit (map fst sc)) -> flookup f (gen_scal sc c0) = flookup f c0.
+Proof.
+  intros Hf Hsw. pose proof (flookup_notin f sc Hf) as Hnone.
+  unfold gen_scal. rewrite !flookup_cls_fn, flookup_set_if, flookup_mem_fn, !flookup_set_if.
+  destruct f; cbn [sfield_eqb sfield_idx Nat.eqb]; rewrite ?Hnone;
+    try (rewrite (flookup_notin MemLimit sc (Hsw eq_refl)));
+    repeat match goal with
+           | |- context [flookup ?X sc] => destruct (flookup X sc) as [[[|?|?]|?|[|? ?]]|]
+           end; cbn; reflexivity.
+Qed.
+
+Theorem gen_frame s a :
+  wf_gen_P s a ->
+  let c := sp_c s in let c' := sp_c (gen_adjust a s) in
+  (forall k, ~ In k (named fst (a_ann a)) -> kfind fst k (c_ann c') = kfind fst k (c_ann c)) /\
+  (forall k, ~ In k (named m_dest (a_mounts a)) -> kfind m_dest k (c_mounts c') = kfind m_dest k (c_mounts c)) /\
+  (forall k, ~ In k (named fst (a_env a)) -> kfind ref_env_key k (c_env c') = kfind ref_env_key k (c_env c)) /\
+  (forall k, ~ In k (named d_path (a_devices a)) -> kfind d_path k (c_devices c') = kfind d_path k (c_devices c)) /\
+  (forall f, ~ In f (map fst (r_scal (a_res a))) -> (f = MemSwap -> ~ In MemLimit (map fst (r_scal (a_res a)))) ->
+             flookup f (r_scal (c_res c')) = flookup f (r_scal (c_res c))) /\
+  (forall k, ~ In k (map fst (r_hp (a_res a))) -> kfind fst k (rev (r_hp (c_res c'))) = kfind fst k (rev (r_hp (c_res c)))) /\
+  (forall k, ~ In k (map fst (r_uni (a_res a))) -> kfind fst k (r_uni (c_res c')) = kfind fst k (r_uni (c_res c))) /\
+  (a_args a = [] -> c_args c' = c_args c) /\
+  (a_cgroups a = "" -> c_cgroups c' = c_cgroups c) /\
+  (a_oom a = None -> c_oom c' = c_oom c).
+Proof.
+  intros [Hm He Hn Hd Hs Ht Hce Hcm Hcd Hch]. cbv zeta. rewrite gen_adjust_c. cbv zeta.
+  cbn [c_ann c_mounts c_env c_devices c_res c_args c_cgroups c_oom].
+  split; [|split; [|split; [|split; [|split; [|split; [|split; [|split; [|split]]]]]]]].
+  - intros k Hk. rewrite gen_annotations_eq. change (apply_ann (c_ann (sp_c s)) (a_ann a)) with (ann_set (a_ann a) (ann_del (a_ann a) (c_ann (sp_c s)))).
+    rewrite ann_set_kfind, ann_del_kfind.
+    assert (Ha : kfind fst k (rev (r_adds fst (a_ann a))) = None).
+    { apply kfind_None_notin. intros H. apply Hk, named_mods. unfold r_mods. rewrite map_rev in H. apply in_rev in H. exact H. }
+    assert (Hdl : smem k (r_dels fst (a_ann a)) = false).
+    { apply smem_false_notin. intros H. apply Hk, named_dels. exact H. }
+    rewrite Ha, Hdl. reflexivity.
+  - intros k Hk. rewrite gen_mounts_refines by assumption. apply ref_keyed_frame. exact Hk.
+  - intros k Hk. rewrite gen_env_refines by assumption.
+    pose proof (sem_char fst ref_env_key ref_env_oci
+                  (fun e => marked (fst e) = false -> count_char "="%char (fst e) = 0)
+                  (fun e Hg Hmk => ref_env_key_oci (fst e) (snd e) (Hg Hmk)) (c_env (sp_c s)) (a_env a) k) as Hsem.
+    unfold sem in Hsem. rewrite Hsem.
+    2:{ intros e Hin Hmk. apply Hn. unfold r_mods. apply in_map. unfold r_adds. apply filter_In.
+        split; [exact Hin|rewrite Hmk; reflexivity]. }
+    change (k_adds fst (a_env a)) with (r_adds fst (a_env a)). change (k_dels fst (a_env a)) with (r_dels fst (a_env a)).
+    assert (Ha : kfind fst k (r_adds fst (a_env a)) = None).
+    { apply kfind_None_notin. intros H. apply Hk, named_mods. exact H. }
+    assert (Hdl : smem k (r_dels fst (a_env a)) = false).
+    { apply smem_false_notin. intros H. apply Hk, named_dels. exact H. }
+    rewrite Ha, Hdl. reflexivity.
+  - intros k Hk. rewrite gen_devices_refines by assumption. apply ref_keyed_frame. exact Hk.
+  - intros f Hf Hsw. rewrite gen_resources_scal. apply gen_scal_frame; assumption.
+  - intros k Hk. change (r_hp (gen_resources (a_res a) (c_res (sp_c s)))) with (hp_fold (r_hp (a_res a)) (r_hp (c_res (sp_c s)))).
+    rewrite !kfind_rev by (try apply hp_fold_NoDup; exact Hch). rewrite hp_fold_kfind.
+    assert (Ha : kfind fst k (rev (r_hp (a_res a))) = None).
+    { apply kfind_None_notin. intros H. apply Hk. rewrite map_rev in H. apply in_rev in H. exact H. }
+    rewrite Ha. reflexivity.
+  - intros k Hk. change (r_uni (gen_resources (a_res a) (c_res (sp_c s)))) with (uni_set (r_uni (a_res a)) (r_uni (c_res (sp_c s)))).
+    rewrite uni_set_kfind.
+    assert (Ha : kfind fst k (rev (r_uni (a_res a))) = None).
+    { apply kfind_None_notin. intros H. apply Hk. rewrite map_rev in H. apply in_rev in H. exact H. }
+    rewrite Ha. reflexivity.
+  - intros Ha. rewrite Ha. reflexivity.
+  - intros Ha. rewrite Ha. reflexivity.
+  - intros Ha. rewrite Ha. reflexivity.
+Qed.
+
+Theorem gen_frame_b s a :
+  wf_gen s a = true ->
+  let c := sp_c s in let c' := sp_c (gen_adjust a s) in
+  (forall k, ~ In k (named fst (a_ann a)) -> kfind fst k (c_ann c') = kfind fst k (c_ann c)) /\
+  (forall k, ~ In k (named m_dest (a_mounts a)) -> kfind m_dest k (c_mounts c') = kfind m_dest k (c_mounts c)) /\
+  (forall k, ~ In k (named fst (a_env a)) -> kfind ref_env_key k (c_env c') = kfind ref_env_key k (c_env c)) /\
+  (forall k, ~ In k (named d_path (a_devices a)) -> kfind d_path k (c_devices c') = kfind d_path k (c_devices c)) /\
+  (forall f, ~ In f (map fst (r_scal (a_res a))) -> (f = MemSwap -> ~ In MemLimit (map fst (r_scal (a_res a)))) ->
+             flookup f (r_scal (c_res c')) = flookup f (r_scal (c_res c))) /\
+  (forall k, ~ In k (map fst (r_hp (a_res a))) -> kfind fst k (rev (r_hp (c_res c'))) = kfind fst k (rev (r_hp (c_res c)))) /\
+  (forall k, ~ In k (map fst (r_uni (a_res a))) -> kfind fst k (r_uni (c_res c')) = kfind fst k (r_uni (c_res c))) /\
+  (a_args a = [] -> c_args c' = c_args c) /\
+  (a_cgroups a = "" -> c_cgroups c' = c_cgroups c) /\
+  (a_oom a = None -> c_oom c' = c_oom c).
+Proof. intros H. apply gen_frame, wf_gen_props, H. Qed.
+
+(* ---------- the run-time predicate of Run/RunAdapt.v, evaluated on the MODEL's result, holds for all inputs ---------- *)
+Theorem gen_holds_C13 s a :
+  wf_gen s a = true -> Forall dest_ok (c_mounts (sp_c s)) -> Forall dest_ok (r_adds m_dest (a_mounts a)) ->
+  holds_C13 {| gc_spec := s; gc_adjust := a; gc_out := gen_adjust a s; gc_deterministic := true |} = true.
+Proof.
+  intros Hwf Hok Hoka. destruct (gen_refines s a Hwf) as [H1 [H2 [H3 H4]]].
+  unfold holds_C13. cbn [gc_spec gc_adjust gc_out gc_deterministic andb].
+  rewrite H1, H2, strs_eqb_refl. cbn [andb].
+  apply andb_true_iff. split; [|exact H3].
+  destruct (a_mounts a) as [|m0 r] eqn:Hm; [reflexivity|]. rewrite <- Hm in *. apply H4; [rewrite Hm; discriminate|exact Hok|exact Hoka].
+Qed.
+
+(* ---------- every clause of wf_gen is needed: without it the refinement statement is false ---------- *)
+Definition refines_b (s : spec) (a : adjustment) : bool :=
+  obs_eqb (sp_c (gen_adjust a s)) (apply_adj (cleared_classes a (sp_c s)) (gen_view a)).
+
+Section Witnesses.
+Open Scope Z_scope.
+Let c_ := {| c_id := "c"; c_ann := []; c_mounts := []; c_env := []; c_args := []; c_hooks := hooks_empty; c_rlimits := [];
+             c_devices := []; c_res := res_empty; c_cgroups := ""; c_oom := None |}.
+Let sp c := {| sp_c := c; sp_cdi := []; sp_rules := [] |}.
+Let mt d s := {| m_dest := d; m_type := "bind"; m_source := s; m_opts := [] |}.
+Let dv p mj := {| d_path := p; d_type := "c"; d_major := mj; d_minor := 1; d_mode := None; d_uid := None; d_gid := None |}.
+Let a_sc sc hp := with_a_res adj_empty {| r_scal := sc; r_hp := hp; r_uni := [] |}.
+
+Definition wf_witnesses : list (string * (spec * adjustment)) :=
+  [ (* W3, environment *)
+    ("existing entry without '=' is dropped", (sp (with_c_env c_ ["FOO"]), with_a_env adj_empty [("A", "1")]));
+    ("existing duplicate variable: the last one wins", (sp (with_c_env c_ ["A=1"; "A=2"]), with_a_env adj_empty [("B", "x")]));
+    ("existing entry with an empty name is dropped", (sp (with_c_env c_ ["=1"]), with_a_env adj_empty [("B", "x")]));
+    (* the adjustment's environment *)
+    ("a set of the empty name is ignored", (sp (with_c_env c_ ["A=1"]), with_a_env adj_empty [("", "x")]));
+    ("a name containing '='", (sp (with_c_env c_ ["A=0"]), with_a_env adj_empty [("A=B", "c"); ("A", "1")]));
+    ("W2: a variable set twice, the last one wins", (sp (with_c_env c_ ["A=0"]), with_a_env adj_empty [("A", "1"); ("A", "2")]));
+    (* mounts *)
+    ("W3: duplicate destination, RemoveMount removes the first only",
+     (sp (with_c_mounts c_ [mt "/a" "x"; mt "/a" "y"]), with_a_mounts adj_empty [mt "-/a" ""]));
+    ("W2: a mount set twice, the last one wins", (sp c_, with_a_mounts adj_empty [mt "/b" "1"; mt "/b" "2"]));
+    (* devices *)
+    ("W3: duplicate device path, RemoveDevice removes the first only",
+     (sp (with_c_devices c_ [dv "/a" 1; dv "/a" 2]), with_a_devices adj_empty [dv "-/a" 0]));
+    ("W2: a device set twice, the last one wins", (sp c_, with_a_devices adj_empty [dv "/b" 1; dv "/b" 2]));
+    (* resources *)
+    ("the scalars are a record: a field given twice", (sp c_, a_sc [(MemLimit, VZ 0); (MemLimit, VZ 5)] []));
+    ("the memory limit is an integer", (sp c_, a_sc [(MemLimit, VS "x")] []));
+    ("W3: duplicate hugepage size, AddLinuxResourcesHugepageLimit updates the first only",
+     (sp (with_c_res c_ {| r_scal := []; r_hp := [("2M", 1); ("2M", 2)]; r_uni := [] |}), a_sc [] [("2M", 5)])) ].
+End Witnesses.
+
+Example wf_gen_clauses_needed :
+  forallb (fun w => negb (wf_gen (fst (snd w)) (snd (snd w))) && negb (refines_b (fst (snd w)) (snd (snd w)))) wf_witnesses = true.
+Proof. vm_compute. reflexivity. Qed.
+
+(* what the design lists but the refinement does NOT need: W4 (args = [""]), W7 (a doubly marked key, a
+   removal whose raw name contains '='), distinct existing annotation / unified keys *)
+Example wf_gen_not_needed :
+  let c := {| c_id := "c"; c_ann := [("k", "1"); ("k", "2"); ("-x", "3")]; c_mounts := []; c_env := ["A=0"; "-X=1"]; c_args := ["sh"];
+              c_hooks := hooks_empty; c_rlimits := []; c_devices := [];
+              c_res := {| r_scal := []; r_hp := []; r_uni := [("u", "1"); ("u", "2")] |}; c_cgroups := ""; c_oom := None |} in
+  let a := {| a_ann := [("--x", ""); ("k", "n")]; a_mounts := [{| m_dest := "--m"; m_type := ""; m_source := ""; m_opts := [] |}];
+              a_env := [("-A=B", ""); ("--X", ""); ("Z", "1")]; a_args := [""]; a_hooks := hooks_empty; a_rlimits := [];
+              a_cdi := []; a_devices := []; a_res := {| r_scal := []; r_hp := []; r_uni := [("u", "3")] |};
+              a_cgroups := ""; a_oom := None |} in
+  wf_gen {| sp_c := c; sp_cdi := []; sp_rules := [] |} a = true.
+Proof. vm_compute. reflexivity. Qed.
+
+(* wf_maps (distinct keys of the two Go maps) is needed for order independence *)
+Example wf_maps_needed :
+  let c := {| c_id := "c"; c_ann := []; c_mounts := []; c_env := []; c_args := []; c_hooks := hooks_empty; c_rlimits := [];
+              c_devices := []; c_res := res_empty; c_cgroups := ""; c_oom := None |} in
+  let s := {| sp_c := c; sp_cdi := []; sp_rules := [] |} in
+  obs_eqb (sp_c (gen_adjust (with_a_ann adj_empty [("k", "1"); ("k", "2")]) s))
+          (sp_c (gen_adjust (with_a_ann adj_empty [("k", "2"); ("k", "1")]) s)) = false.
+Proof. vm_compute. reflexivity. Qed.
